@@ -148,13 +148,19 @@ func verifC14_client() {
 		// alone: a client that drops its window although the response does not carry server_no_context_takeover cannot
 		// decode the second message of a server that applies the agreement.
 		c, s = offered.clientNoContextTakeover, false
-		for _, p := range e.params {
+		for i, p := range e.params {
 			isCN := vEqStr(p, "client_no_context_takeover")
 			isSN := vEqStr(p, "server_no_context_takeover")
 			isSW := vIsWindowBits(p, "server_max_window_bits")
 			good = vAnd(good, vOr(vOr(isCN, isSN), isSW))
 			c = vOr(c, isCN)
 			s = vOr(s, isSN)
+			// RFC 7692 section 7: a response that repeats a parameter name is invalid, the client must fail the connection
+			for j := 0; j < i; j++ {
+				for _, n := range []string{"client_no_context_takeover", "server_no_context_takeover", "server_max_window_bits"} {
+					good = vAnd(good, vNot(vAnd(vNamed(p, n), vNamed(e.params[j], n))))
+				}
+			}
 		}
 		if err == nil {
 			vReach("C14.client.accepted")
